@@ -15,6 +15,29 @@ CLAIMED = {
         design='6/C13'),
 }
 
+CLAIMED['C18'] = dict(
+    text='Bounded symbolic execution of the varint and uint32 delimited writers/readers together with the real bufio.Reader, '
+         'io.ReadFull and encoding/binary bodies: message bodies and raw streams are vectors of free bytes, every Read of the '
+         'underlying stream returns a free number of bytes (chunking is a solver variable), allocation sizes are observed at '
+         'MakeSlice. Round trip incl. buffer reuse, limit+1 refusal without over-allocation, and a differential reference '
+         'decoder on arbitrary streams; every Go run-time panic on any path is a violation.',
+    note='Bounds: <=2 frames, bodies <=2 (quick) / <=3 (thorough) bytes, arbitrary streams <=5/8 bytes (varint) and <=7/10 (uint32), '
+         'maxSize 0..4. proto.Marshal/Unmarshal are contracts (copy the body). Outside: 2048-byte limit with long frames, gogo MarshalTo fast path.',
+    design='6/C18')
+CLAIMED['C15'] = dict(
+    text='Sequential contract of both queues by bounded symbolic execution with the real container/heap and container/list: '
+         'free 64-bit counters (all orders and ties of up to 4/5 items), adds split at every position, FIFO/exactly-once, '
+         'cancelled wait. The concurrent part (lost wake-up) is decided by the schedule-symbolic BMC when registered; see level_note.',
+    note='Sequential harnesses only at this commit; single goroutine (a blocking select with no ready case is reported as deadlock).',
+    design='6/C15')
+CLAIMED['C17'] = dict(
+    text='Bounded symbolic execution of pkg/rendezvous with the clock as a solver variable (time.Now/Until = free non-decreasing '
+         'instants over mathematical integers with range obligations, AfterFunc recorded), HMAC/base64 as free constructors: '
+         'period rounding, digest determinism/separation, resolution across deadlines, agreement of two peers, grace period, refusals.',
+    note='Intervals from a stated finite set of whole seconds (a free interval makes (t/I)*I non-linear: undecided); instants in [0,2^33) s; '
+         '<=12 clock readings; topic||seed concatenation treated as injective; OrbitDBMessageMarshaler not included.',
+    design='6/C17')
+
 NOT_APPLICABLE = {}
 ALL = ['C%02d' % i for i in range(1, 21)]
 PENDING_REASON = 'no solver-based check registered yet for this property in the current state of /verif (see DESIGN.md section 9)'
